@@ -33,13 +33,16 @@ pub fn nontrivial_c21(p: &Prepared, si: usize) -> bool {
 }
 
 pub fn run(ctx: &mut Ctx) {
-    ctx.rule = "Cases are (generated DFIR program, per-tick input history) pairs; programs are drawn by a seeded, \
-coverage-table-driven generator over a typed IR (item universe i64 / (i64,i64), fixed closure menus, order classes \
-Seq/Bag), compiled by rustc through dfir_syntax!, run tick by tick, and every (tick, sink) output group is compared \
-with a reference interpreter written from the operator documentation (sequence for Seq sinks, multiset for Bag sinks). \
-A case is non-trivial iff the program contains a stateful operator with 'static persistence on some argument, the \
-history has >= 2 non-empty ticks and the expected output is non-empty in >= 2 ticks; cases are distinct by structural \
-hash of (program IR, history)."
+    ctx.rule = "Cases are (generated DFIR program, per-tick input history) pairs, compiled by rustc through dfir_syntax!, \
+run tick by tick, every (tick, sink) output group compared with a reference interpreter written from the operator \
+documentation (sequence for Seq sinks, multiset for Bag sinks). Two generators: `operator-cells` - for every (operator, \
+persistence) cell of the operator table a minimal program sources -> [type adapters] -> operator -> sinks, once as is and, \
+for unary operators, once behind tee() (push side), on dense histories (5-8 ticks over a tiny item domain); \
+`interp-vs-compiled` - random programs drawn by a seeded, coverage-table-driven generator over a typed IR (item universe \
+i64 / (i64,i64) plus the transient types operators produce, fixed closure menus, order classes Seq/Bag) with 3-8 tick \
+histories. A case is non-trivial iff the program contains a stateful operator with 'static persistence (or inherent \
+cross-tick state) on some argument, the history has >= 2 non-empty ticks and the expected output is non-empty in >= 2 \
+ticks; cases are distinct by structural hash of (program IR, history)."
         .into();
     ctx.assume("closures are taken from a fixed menu that is total and overflow-free inside the value envelope |v| <= 2^40 (cases leaving it are excluded and counted)");
     ctx.assume("order-sensitive operators are only applied to streams whose order is documented (order classes); behaviour the docs leave open is not modelled");
